@@ -1,7 +1,7 @@
 (* Proofs about Struct/Spelling.v: spellings related by the congruence [sp_eq] evaluate to objects that
    typedpy converts to the same Field term in every context. *)
 From Coq Require Import ZArith NArith String List Bool Lia. Import ListNotations.
-From TP Require Import Base.PyVal Fields.FieldAst Fields.SetChain Gen.TypeMapping Struct.Spelling.
+From TP Require Import Base.PyVal Fields.FieldAst Fields.SetChain Gen.TypeMapping Gen.AnnotGuards Struct.Spelling.
 Local Open Scope string_scope.
 
 (* ------------------------------------------------------------------ facts of the GENERATED table *)
@@ -771,6 +771,68 @@ Proof.
   - unfold getitem_conv at 1. rewrite HT. reflexivity.
 Qed.
 
+(* ------------------------------------------------------------------ nested typing Unions are flattened *)
+Local Open Scope list_scope.
+Lemma mapM_app {A B} (f : A -> res B) l1 l2 :
+  mapM f (l1 ++ l2) = (a <- mapM f l1 ;; b <- mapM f l2 ;; Ok (a ++ b)).
+Proof.
+  induction l1 as [|x t IH]; cbn [mapM app bind].
+  - destruct (mapM f l2); reflexivity.
+  - destruct (f x) as [y|e]; cbn [bind]; [|reflexivity]. rewrite IH.
+    destruct (mapM f t) as [ys|e]; cbn [bind]; [|reflexivity]. destruct (mapM f l2); reflexivity.
+Qed.
+
+Lemma flatten_app l1 l2 : flatten_union (l1 ++ l2) = flatten_union l1 ++ flatten_union l2.
+Proof. unfold flatten_union. apply flat_map_app. Qed.
+
+Lemma keeps_flat l : keeps_as_written l = true -> existsb is_ounion (map none_to_nonetype l) = false.
+Proof.
+  unfold keeps_as_written. intros H. apply andb_true_iff in H. destruct H as [H _].
+  apply andb_true_iff in H. destruct H as [H _]. apply negb_true_iff in H. exact H.
+Qed.
+
+(* typing.Union[l0..., typing.Union[l1...], l2...] is typing.Union[l0..., l1..., l2...]: whatever the outer members
+   are (typing's de-duplication included), provided typing keeps the INNER union as written *)
+Lemma mk_union_nested l0 l1 l2 :
+  keeps_as_written l1 = true -> mk_union (l0 ++ mk_union l1 :: l2) = mk_union (l0 ++ l1 ++ l2).
+Proof.
+  intros K. rewrite (keeps_mk_union _ K). unfold mk_union.
+  rewrite !map_app. cbn [map none_to_nonetype]. rewrite !flatten_app.
+  change (flatten_union (OUnion (map none_to_nonetype l1) :: map none_to_nonetype l2))
+    with (map none_to_nonetype l1 ++ flatten_union (map none_to_nonetype l2)).
+  rewrite (flatten_id _ (keeps_flat _ K)). reflexivity.
+Qed.
+
+Lemma pyeval_union_nested l0 l1 l2 :
+  union_written l1 = true -> pyeval (TUnion (l0 ++ TUnion l1 :: l2)) = pyeval (TUnion (l0 ++ l1 ++ l2)).
+Proof.
+  intros Hw. destruct (union_written_spec l1 Hw) as [objs1 [E1 K1]].
+  rewrite !pyeval_union, !mapM_app. cbn [mapM]. rewrite pyeval_union, E1. cbn [bind].
+  destruct (mapM pyeval l0) as [o0|x]; [|reflexivity]. cbn [bind].
+  destruct (mapM pyeval l2) as [o2|x]; [|reflexivity]. cbn [bind].
+  rewrite (mk_union_nested o0 objs1 o2 K1). reflexivity.
+Qed.
+
+Lemma pyeval_optional_eq a : pyeval (TOptional a) = pyeval (TUnion [a; TNone]).
+Proof. rewrite pyeval_union. cbn [pyeval mapM]. destruct (pyeval a) as [o|x]; reflexivity. Qed.
+
+Lemma pyeval_union_pointwise l l' :
+  Forall2 (fun a b => pyeval a = pyeval b) l l' -> pyeval (TUnion l) = pyeval (TUnion l').
+Proof.
+  intros H. rewrite !pyeval_union.
+  assert (HM : mapM pyeval l = mapM pyeval l').
+  { induction H as [|a b t t' Hab _ IH]; [reflexivity|]. cbn [mapM]. rewrite Hab, IH. reflexivity. }
+  rewrite HM. reflexivity.
+Qed.
+
+Lemma pyeval_union_opt_member l0 a l2 :
+  pyeval (TUnion (l0 ++ TOptional a :: l2)) = pyeval (TUnion (l0 ++ TUnion [a; TNone] :: l2)).
+Proof.
+  apply pyeval_union_pointwise. induction l0 as [|x t IH]; cbn [app].
+  - constructor; [apply pyeval_optional_eq|]. induction l2; constructor; auto.
+  - constructor; [reflexivity|exact IH].
+Qed.
+
 Lemma case_or_sub a a' b b' :
   req (pyeval a) (pyeval a') -> req (pyeval b) (pyeval b') -> or_left a = true -> or_right_ok b = true ->
   req (pyeval (TOr a b)) (pyeval (TSub (s2p "AnyOf") [a'; b'])).
@@ -840,6 +902,12 @@ Inductive sp_eq : tyexpr -> tyexpr -> Prop :=
 | sp_or_sub a a' b b' :
     sp_eq a a' -> sp_eq b b' -> or_left a = true -> or_right_ok b = true ->
     sp_eq (TOr a b) (TSub (s2p "AnyOf") [a'; b'])
+(* typing flattens nested Unions: Union[A, Union[B, C]] ~ Union[A, B, C]; Optional[Union[A, B]] ~ Union[A, B, None] *)
+| sp_union_flat l0 l1 l2 :
+    union_written l1 = true -> sp_eq (TUnion (l0 ++ TUnion l1 :: l2)) (TUnion (l0 ++ l1 ++ l2))
+(* Union[A, Optional[B]] ~ Union[A, Union[B, None]] *)
+| sp_union_opt_member l0 a l2 :
+    sp_eq (TUnion (l0 ++ TOptional a :: l2)) (TUnion (l0 ++ TUnion [a; TNone] :: l2))
 with sp_eqs : list tyexpr -> list tyexpr -> Prop :=
 | sps_nil : sp_eqs [] []
 | sps_cons a a' l l' : sp_eq a a' -> sp_eqs l l' -> sp_eqs (a :: l) (a' :: l').
@@ -871,6 +939,8 @@ Proof.
   - apply case_union_cong; assumption.
   - apply case_union_sub; assumption.
   - apply case_or_sub; assumption.
+  - rewrite pyeval_union_nested by assumption. apply req_refl.
+  - rewrite pyeval_union_opt_member. apply req_refl.
   - cbn. constructor.
   - apply lreq_cons; assumption.
 Qed.
@@ -956,19 +1026,48 @@ Section DeclProofs.
   Definition mk_fres (d : decl) (f : field) (dv : option pyval) (o : bool) : fres :=
     {| fr_name := d_name d; fr_field := f; fr_default := dv; fr_optional := o |}.
 
+  (* a truthy default is validated by Field.__init__ under either recognised guard *)
+  Lemma init_validates_truthy dv : py_truthy dv = true -> init_validates dv = true.
+  Proof. unfold init_validates. intros H. destruct init_default_rule; try exact H. destruct dv; try reflexivity; discriminate. Qed.
+
+  (* what a default given with `=` amounts to when it is not a list / dict / set: validated, then stored —
+     on every path (class instantiated with default=, typing instance, Field instance) *)
+  Definition eq_simple (f : field) (eq : option pyval) : res (option pyval) :=
+    match eq with None => Ok None | Some d => _ <- try_default re_match e f d ;; Ok (Some d) end.
+  Definition eq_immutable (eq : option pyval) : bool :=
+    match eq with Some d => negb (is_mutable_default d) | None => true end.
+
+  Lemma eq_default_immutable path f eq : eq_immutable eq = true -> eq_default path f None eq = eq_simple f eq.
+  Proof.
+    destruct eq as [d|]; [|reflexivity]. cbn [eq_immutable]. intros Hm. apply negb_true_iff in Hm.
+    unfold Spelling.eq_default, eq_simple, apply_default. rewrite Hm.
+    destruct path.
+    - destruct (init_validates d) eqn:Hv.
+      + destruct (try_default re_match e f d) as [[]|x]; cbn [bind]; [|reflexivity].
+        destruct (py_truthy d); [reflexivity|]. destruct (try_default re_match e f d) as [[]|x]; reflexivity.
+      + cbn [bind]. destruct (py_truthy d) eqn:Ht; [|reflexivity].
+        rewrite (init_validates_truthy d Ht) in Hv. discriminate.
+    - destruct (try_default re_match e f d) as [[]|x]; reflexivity.
+    - reflexivity.
+  Qed.
+
   Lemma decl_annot_form d :
-    d_annot d = true -> d_kw d = None ->
+    d_annot d = true -> d_kw d = None -> eq_immutable (d_eq d) = true ->
     decl_result d =
     (r <- convert_opt (d_ty d) ;;
      match r with
      | None => Ok None
-     | Some f => dv <- eq_default f None (d_eq d) ;;
+     | Some f => dv <- eq_simple f (d_eq d) ;;
                  Ok (Some (mk_fres d f dv (d_opt d || marks_optional (d_ty d))))
      end).
   Proof.
-    intros Ha Hk. unfold Spelling.decl_result, convert_opt. rewrite Ha, Hk.
+    intros Ha Hk Hm. unfold Spelling.decl_result, convert_opt. rewrite Ha, Hk.
     destruct (pyeval (d_ty d)) as [o|x]; [|reflexivity]. cbn [bind].
-    destruct o; cbn [init_default bind andb]; reflexivity.
+    assert (HI : match o with OFieldInst f => init_default re_match e f None | _ => Ok tt end = Ok tt)
+      by (destruct o; reflexivity).
+    rewrite HI. cbn [bind]. destruct (tli_f o) as [[f|]|y]; cbn [bind]; try reflexivity.
+    assert (HK : match o with OFieldInst _ => @None pyval | _ => None end = None) by (destruct o; reflexivity).
+    rewrite HK, (eq_default_immutable _ f _ Hm). cbn [andb]. reflexivity.
   Qed.
 
   Lemma decl_assign_form d :
@@ -992,7 +1091,8 @@ Section DeclProofs.
     decl_result d =
     (_ <- try_default re_match e f dv ;; Ok (Some (mk_fres d f (Some dv) (d_opt d || false)))).
   Proof.
-    intros Hk He Ht Hp. unfold Spelling.decl_result. rewrite Hp, Hk, He. cbn [bind init_default]. rewrite Ht.
+    intros Hk He Ht Hp. unfold Spelling.decl_result. rewrite Hp, Hk, He. cbn [bind init_default].
+    rewrite (init_validates_truthy dv Ht).
     assert (HM : marks_optional (d_ty d) = false) by (unfold marks_optional; rewrite Hp; reflexivity).
     destruct (try_default re_match e f dv) as [[]|x]; [|reflexivity]. cbn [bind].
     destruct (d_annot d); cbn [tli_f tli bind opt_inst inst assign_obj andb];
@@ -1006,7 +1106,7 @@ Section DeclProofs.
   (* a: s  ~  a: s' *)
   | de_annot d d' :
       d_name d = d_name d' -> d_annot d = true -> d_annot d' = true -> d_kw d = None -> d_kw d' = None ->
-      d_eq d = d_eq d' -> sp_eq (d_ty d) (d_ty d') ->
+      d_eq d = d_eq d' -> eq_immutable (d_eq d) = true -> sp_eq (d_ty d) (d_ty d') ->
       d_opt d || marks_optional (d_ty d) = d_opt d' || marks_optional (d_ty d') -> decl_eq d d'
   (* a = s  ~  a = s' *)
   | de_assign d d' :
@@ -1027,23 +1127,26 @@ Section DeclProofs.
 
   Theorem decl_sound d d' : decl_eq d d' -> decl_result d = decl_result d'.
   Proof.
-    induction 1 as [d|d d' _ IH|d d' d'' _ IH1 _ IH2|d d' Hn Ha Ha' Hk Hk' He Hs Ho
+    induction 1 as [d|d d' _ IH|d d' d'' _ IH1 _ IH2|d d' Hn Ha Ha' Hk Hk' He Hi Hs Ho
                     |d d' Hn Ha Ha' Hk Hk' Hs Hf Hf' Ho|d d' Hn Ha Ha' Hk Hk' He Hs Hf Hf' Ho
                     |d d' dv Hn Ha Hk He Hk' He' Hs Hi Ht Hm Ho].
     - reflexivity.
     - symmetry. exact IH.
     - congruence.
-    - rewrite (decl_annot_form d Ha Hk), (decl_annot_form d' Ha' Hk'), (convert_opt_equiv _ _ Hs), He.
+    - assert (Hi' : eq_immutable (d_eq d') = true) by (rewrite <- He; exact Hi).
+      rewrite (decl_annot_form d Ha Hk Hi), (decl_annot_form d' Ha' Hk' Hi'), (convert_opt_equiv _ _ Hs), He.
       unfold mk_fres. rewrite Hn, Ho. reflexivity.
     - rewrite (decl_assign_form d Ha Hk), (decl_assign_form d' Ha' Hk'), (convert_assign_equiv _ _ Hs Hf Hf').
       unfold mk_fres. rewrite Hn, Ho. reflexivity.
-    - rewrite (decl_annot_form d Ha Hk), (decl_assign_form d' Ha' Hk'), He.
+    - assert (Hi : eq_immutable (d_eq d) = true) by (rewrite He; reflexivity).
+      rewrite (decl_annot_form d Ha Hk Hi), (decl_assign_form d' Ha' Hk'), He.
       rewrite <- (convert_assign_annot _ Hf), (convert_assign_equiv _ _ Hs Hf Hf').
       rewrite (marks_optional_fieldy _ Hf). unfold mk_fres. rewrite Hn, Ho.
       destruct (convert_assign (d_ty d')) as [[f|]|x]; reflexivity.
     - unfold evals_inst in Hi. destruct (pyeval (d_ty d')) as [[]|x] eqn:Hp; try discriminate.
-      rewrite (decl_kw_form d' dv f Hk' He' Ht Hp), (decl_annot_form d Ha Hk), (convert_opt_equiv _ _ Hs), He.
-      unfold convert_opt. rewrite Hp. cbn [bind tli_f tli opt_inst inst]. cbn [Spelling.eq_default]. rewrite Hm.
+      assert (Hi2 : eq_immutable (d_eq d) = true) by (rewrite He; cbn [eq_immutable]; rewrite Hm; reflexivity).
+      rewrite (decl_kw_form d' dv f Hk' He' Ht Hp), (decl_annot_form d Ha Hk Hi2), (convert_opt_equiv _ _ Hs), He.
+      unfold convert_opt. rewrite Hp. cbn [bind tli_f tli opt_inst inst]. cbn [eq_simple].
       unfold mk_fres. rewrite Hn, Ho, orb_false_r.
       destruct (try_default re_match e f dv) as [[]|x]; reflexivity.
   Qed.
@@ -1055,4 +1158,57 @@ Section DeclProofs.
     { induction H as [|d d' l l' Hd _ IH]; [reflexivity|]. cbn [mapM]. rewrite (decl_sound _ _ Hd), IH. reflexivity. }
     rewrite HM. reflexivity.
   Qed.
+
+  (* ---------------------------------------------------------------- from __future__ import annotations *)
+  Notation decl_result_future := (decl_result_future re_match e).
+  Notation class_result_future := (class_result_future re_match e).
+
+  Lemma decl_future_evaluated len d :
+    (d_annot d = true -> future_evaluated len = true) -> decl_result_future len d = decl_result d.
+  Proof.
+    intros H. unfold Spelling.decl_result_future. destruct (d_annot d); [|reflexivity].
+    rewrite (H eq_refl). reflexivity.
+  Qed.
+
+  (* a class whose annotations are all evaluated is the class defined without the __future__ import *)
+  Theorem future_transparent ds :
+    Forall (fun p => d_annot (snd p) = true -> future_evaluated (fst p) = true) ds ->
+    class_result_future ds = class_result (map snd ds).
+  Proof.
+    intros H. unfold Spelling.class_result_future, Spelling.class_result.
+    assert (HM : mapM (fun p => decl_result_future (fst p) (snd p)) ds = mapM decl_result (map snd ds)).
+    { induction H as [|p t Hp _ IH]; [reflexivity|]. cbn [mapM map]. rewrite (decl_future_evaluated _ _ Hp), IH.
+      reflexivity. }
+    rewrite HM. reflexivity.
+  Qed.
+
+  (* an annotation that is not evaluated is ignored: no field, whatever it says *)
+  Lemma decl_future_ignored len d :
+    d_annot d = true -> future_evaluated len = false -> decl_result_future len d = Ok None.
+  Proof. intros Ha Hf. unfold Spelling.decl_result_future. rewrite Ha, Hf. reflexivity. Qed.
 End DeclProofs.
+
+(* the guards read from the source text on this run are the ones the model transcribes / the proofs are about *)
+Lemma src_rules_today :
+  typing_optional_rule = OptIfAnyOfIsOptional /\ anyof_optional_rule = IsOptIfSomeNoneField /\
+  apply_default_rule = ApplyIfNoTruthyDefault /\ required_rule = ReqUnlessDefaultOrOptional /\
+  (init_default_rule = InitDefaultIfTruthy \/ init_default_rule = InitDefaultIfNotNone) /\
+  future_rule <> FutureUnrecognised /\
+  (forall l, is_mutable_default (PList l) = true) /\ (forall l, is_mutable_default (PDict l) = true) /\
+  (forall l, is_mutable_default (PSet false l) = true).
+Proof.
+  repeat split; try reflexivity; try discriminate. left; reflexivity.
+Qed.
+
+(* with today's guard the __future__ import is NOT transparent: a 60-character annotation loses its field *)
+Definition future_full : Prop :=
+  forall re_match e ds, class_result_future re_match e ds = class_result re_match e (map snd ds).
+
+Lemma future_refuted : ~ future_full.
+Proof.
+  intros H.
+  specialize (H (fun _ _ => false) []
+                [(60%Z, {| d_name := s2p "a"; d_annot := true; d_ty := TName (s2p "int"); d_eq := None; d_kw := None;
+                           d_opt := false |})]).
+  vm_compute in H. discriminate H.
+Qed.
